@@ -60,3 +60,32 @@ Qed.
 Lemma find_add_delay_eq (chs : sched) (t0 n : Z) (tg : list Z) (wfa : bool) :
   gen_find_add_delay chs t0 n tg wfa = find_add_delay n tg wfa t0 chs.
 Proof. unfold gen_find_add_delay. apply find_add_delay_outer_eq. Qed.
+
+(** _ChannelSchedule.last_target and last_pulse_slot (search loops) *)
+Lemma last_target_loop_eq slots :
+  forall l : list slot,
+    match gen_last_target_loop1 slots l with Some t => t | None => 0 end = last_target l.
+Proof.
+  induction l as [|s r IH]; cbn [gen_last_target_loop1 last_target]; [reflexivity|].
+  destruct (is_target s); [reflexivity|exact IH].
+Qed.
+
+Lemma last_target_eq (slots : list slot) : gen_last_target slots = last_target slots.
+Proof. unfold gen_last_target. apply last_target_loop_eq. Qed.
+
+Lemma last_pulse_slot_loop_eq slots ign :
+  forall l : list slot,
+    gen_last_pulse_slot_loop1 slots ign l = option_map fst (last_pulse_slot ign l).
+Proof.
+  induction l as [|s r IH]; cbn [gen_last_pulse_slot_loop1 last_pulse_slot]; [reflexivity|].
+  unfold is_pulse. destruct (s_kind s) as [p| | ]; cbn [andb]; try exact IH.
+  destruct (ign && p_dd p); cbn [negb]; [exact IH|reflexivity].
+Qed.
+
+Lemma last_pulse_slot_eq (slots : list slot) (ign : bool) :
+  gen_last_pulse_slot slots ign =
+  match last_pulse_slot ign slots with Some (s, _) => Ok s | None => Err ERuntime end.
+Proof.
+  unfold gen_last_pulse_slot. rewrite last_pulse_slot_loop_eq.
+  destruct (last_pulse_slot ign slots) as [[s p]|]; reflexivity.
+Qed.
